@@ -728,7 +728,8 @@ reprocess:
 	return (location);
 }
 
-#define MINI_FORMAT_STR_LEN 20
+/* "%" + every flag once + two "*" values + "ll" + the conversion: 34 */
+#define MINI_FORMAT_STR_LEN 64
 
 /*
  * buf_len is the number of bytes that may be read at buf: the format must
